@@ -339,3 +339,11 @@ func (c *Ctx) sigSeen(sig map[string]string) bool {
 	c.sigs[k] = true
 	return true
 }
+
+// PickInts returns q in the quick tier and t in the thorough tier.
+func (c *Ctx) PickInts(q, t []int) []int {
+	if c.Thorough() {
+		return t
+	}
+	return q
+}
